@@ -2,7 +2,7 @@
 
 LETTERS = "aBcDeFgHkM"
 DIGITS = "1234567890"
-OTHER_KW = {"testonly": "@immutable"}
+OTHER_KW = {"testonly": "@immutable", "Immutable": "@immutable", "at_space_immutable": "@immutable", "no_at_immutable": "@immutable"}
 
 
 def rest_text(kw, rest):
@@ -85,6 +85,7 @@ class FileBuilder:
 
     def __init__(self, pkgname):
         self.pkg = pkgname
+        self.pkgdoc = []   # lines of the package documentation (site packageDoc)
         self.lines = ["package " + pkgname, ""]
         self.items = []   # (scenario index, item name, kind of item, expectation, comment line number)
         self.n = 0
@@ -163,6 +164,11 @@ class FileBuilder:
             L += ["type (", "\t" + text, "\tT%da struct{ F int }" % n, "", "\t%s struct{ F int }" % name, ")", ""]
         elif site == "afterDirectiveDoc":
             L += ["var v%d = 3 %s" % (n, text), "", "//go:generate echo %s" % name, "type %s struct{ F int }" % name, ""]
+        elif site == "packageDoc":
+            # the line goes in front of the package clause; the item is an exported type (with an exported function) of the file
+            name = "PD%d" % n
+            self.pkgdoc.append(text)
+            L += ["type %s struct{ F int }" % name, "", "func PDF%d() {}" % n, ""]
         elif site == "insideBody":
             L += ["func body%d() {" % n, "\t" + text, "\ttype %s struct{ F int }" % name, "\tvar _ %s" % name, "}", ""]
         else:
@@ -171,7 +177,8 @@ class FileBuilder:
 
     def program(self, pid):
         return {"id": pid, "pkgs": [{"path": "m/" + self.pkg, "name": self.pkg,
-                                     "files": [{"name": "%s/a.go" % self.pkg, "src": "\n".join(self.lines) + "\n"}]}]}
+                                     "files": [{"name": "%s/a.go" % self.pkg, "src": "\n".join(
+                                         (["// Package %s is generated for the grammar check." % self.pkg] + self.pkgdoc if self.pkgdoc else []) + self.lines) + "\n"}]}]}
 
 
 def observed(result, pkgpath):
